@@ -286,6 +286,7 @@ func main() {
 		maxPar = v
 	}
 	sem := make(chan struct{}, maxPar)
+	var acquire sync.Mutex
 	results := make([]shardResult, len(runs))
 	var wg sync.WaitGroup
 	for i, r := range runs {
@@ -293,9 +294,16 @@ func main() {
 		go func(i int, r shardRun) {
 			defer wg.Done()
 			w := r.job.procs()
+			if w > maxPar {
+				w = maxPar
+			}
+			// all the tokens of a job are taken under one lock: two jobs that each
+			// hold a part of what they need would wait for each other for ever
+			acquire.Lock()
 			for k := 0; k < w; k++ {
 				sem <- struct{}{}
 			}
+			acquire.Unlock()
 			secs := r.job.secs[ti]
 			if secs == 0 {
 				secs = 900
